@@ -34,6 +34,12 @@ CLAIMED = {
  "C19": ("decision tables of the two pure linktest reducers and of one full iteration of the probe loop (loop-carried values included) against an oracle written from the suppression rules; option-validation tables",
          "Decides every ordering cell of the failure reducer and the pre-disconnect re-check, and the complete per-iteration behaviour of the probe loop: skip rules, probe, success reset, failure accounting with argument roles and fresh re-reads, threshold comparison, TCPDown, and what is carried to the next iteration. Real-time durations and accepted stamp races are not decided.",
          "§4 C19"),
+ "C02": ("bounds/size/divisor obligations over the decode fragment decided by linear integer arithmetic (Fourier–Motzkin) on SSA values, with pre/postconditions, loop-phi invariants and slab invariants inferred inductively (Houdini); grammar-rejection facts proved at every success exit; recursion-cycle depth-parameter analysis; entry-point argument comparison",
+         "Decides that every index, slice, binary.BigEndian read, divisor and allocation size reachable from Decode/DecodeOwned is in range / bounded by the input length for every input (so no bounds-check panic and no allocation driven by a claimed length), that every success exit of the decoders has rejected zero length-byte count, truncated header/payload, non-multiple payloads, short localized strings, undefined codes and over-deep nesting, that the recursion is depth-bounded, and that the copying and owning entry points run the same decoder. Does not decide the decoded values or re-encode equality.",
+         "§4 C02"),
+ "C14": ("bounds/size obligations over the parse fragment decided by linear integer arithmetic on SSA values with inductively inferred contracts and Parser field invariants (data = input[pos:], len = len(input), 0 ≤ pos ≤ len); recursion-cycle depth-parameter analysis; provenance of every ParseError offset and decision table of the line/column scan; who-may-write enumeration of package variables and Parser/Encoder fields",
+         "Decides that every index/slice of the scan window, every forward/backward step and every allocation size (make, Builder.Grow) reachable from the Parse entry points is in range / bounded by the unread input for every text, that list nesting is depth-bounded before recursion, that every syntax error's offset is a parser position clamped to len(input) with line/column derived from exactly that prefix, and that parser/encoder instances share no mutable state. Does not decide running time or messages' values.",
+         "§4 C14"),
 }
 
 NOT_YET = {}
